@@ -207,23 +207,35 @@ Definition check_clauses (h : c02_case) : list string :=
    the same raw Ethereum transaction).  The clause names the signing scheme. *)
 Fixpoint share_sig (l m : list slot) : bool :=
   match l, m with x :: l', y :: m' => (s_sig x =? s_sig y) || share_sig l' m' | _, _ => false end.
-Definition raw_id_of (t : tx) : option Z := match t_msgs t with [MEth _ _ raw] => Some (r_id raw) | _ => None end.
+Definition raw_id_of (t : tx) : option Z := match t_msgs t with MEth _ _ raw :: _ => Some (r_id raw) | _ => None end.
+Definition msg_ident (m : msg) : Z := match m with MPlain i _ => i | MEth i _ _ => i end.
+Definition same_msgs (t1 t2 : tx) : bool := list_eqb Z.eqb (map msg_ident (t_msgs t1)) (map msg_ident (t_msgs t2)).
+(* which signing scheme the shared authorisation belongs to (read off the transaction the signer made) *)
+Definition scheme_of (T : tabs) (g : bool) (pre : ostate) (t1 : tx) : string :=
+  match raw_id_of t1, t_slots t1, signers t1 with
+  | Some _, _, _ => "ethraw"%string
+  | None, [x], [a] =>
+      (* one DIRECT slot whose signature is NOT a key signature of the sign document: EIP-712 *)
+      if mode_eqb (s_mode x) MDirect &&
+         negb (match oget pre a with
+               | Some o => existsb (fun e => match e with (k, d, s) =>
+                             doc_eqb (SignDoc (s_mode x) 0 (if g then 0 else o_num o) (o_seq o) (t_id t1)) d
+                             && (s_sig x =? s) && (t_addr_of_pk T k =? a) end) (tb_ver T)
+               | None => false end)
+      then "eip712"%string else "key"%string
+  | _, _, _ => "key"%string
+  end.
+(* what was changed around the shared signature: the message list, or only fee / memo / ... *)
 Definition exact_clauses (h : c02_case) : list string :=
   match h_check_tx h, h_steps h with
   | Some t1, o :: _ =>
       let t2 := so_tx o in
       if (h_check h =? 0) && (so_class o =? 0) && negb (t_id t1 =? t_id t2)
-         && list_eqb Z.eqb (signers t1) (so_signers o) then
-        match raw_id_of t1, raw_id_of t2 with
-        | Some i, Some j => if i =? j then ["exact.ethraw.fee-memo-not-signed"%string] else []
-        | None, None =>
-            if share_sig (t_slots t1) (t_slots t2) then
-              match t_slots t2 with
-              | x :: _ => if Nat.eqb (List.length (t_slots t2)) 1 && mode_eqb (s_mode x) MDirect
-                          then ["exact.eip712.fee-memo-not-signed"%string] else ["exact"%string]
-              | [] => [] end
-            else []
-        | _, _ => [] end
+         && list_eqb Z.eqb (signers t1) (so_signers o)
+         && (share_sig (t_slots t1) (t_slots t2)
+             || match raw_id_of t1, raw_id_of t2 with Some i, Some j => i =? j | _, _ => false end) then
+        [("exact." ++ scheme_of (h_tabs h) (h_genesis h) (h_init h) t1 ++
+          (if same_msgs t1 t2 then ".fee-memo-not-signed" else ".msgs-not-signed"))%string]
       else []
   | _, _ => []
   end.
